@@ -26,26 +26,27 @@ func fail(format string, args ...interface{}) {
 // ---------------------------------------------------------------------------
 
 type translator struct {
-	prog        *ssa.Program
-	pkgs        map[string]*ssa.Package
-	byName      map[string]*ssa.Function // target name -> function
-	byFunc      map[*ssa.Function]string // function -> target name
-	resolveErr  map[string]string
-	panicMemo   map[*ssa.Function]int // 1 = being computed, 2 = cannot panic, 3 = can panic
-	fuelMemo    map[*ssa.Function]int // 2 = no loop (transitively), 3 = contains a loop or calls a target that does
-	legacy      map[string]bool       // targets of the original ssa2lean (namespace Low.Gen.Ssa, loop-free only)
-	gen2        map[string]bool       // targets of ssa2lean2 (namespace Low.Gen.Ssa2)
-	gen3        map[string]bool       // targets of ssa2lean3 (namespace Low.Gen.Ssa3)
-	gen4        map[string]bool       // targets of ssa2lean4 (namespace Low.Gen.Ssa4)
-	initConsts  map[*ssa.Global]string
-	cloMemo     map[*ssa.Function]*closureInfo
-	cloDone     map[*ssa.Function]bool
-	freshMemo   map[*ssa.Function]int // returnsFresh: 1 = being computed, 2 = yes, 3 = no
-	globalInts  map[*ssa.Function][]*ssa.Global
-	writtenMemo map[*ssa.Function]map[int]bool
-	tablesOK    map[*ssa.Global]string
-	globalsOK   map[*ssa.Global]string
-	allFuncs    []*ssa.Function
+	prog         *ssa.Program
+	pkgs         map[string]*ssa.Package
+	byName       map[string]*ssa.Function // target name -> function
+	byFunc       map[*ssa.Function]string // function -> target name
+	resolveErr   map[string]string
+	panicMemo    map[*ssa.Function]int // 1 = being computed, 2 = cannot panic, 3 = can panic
+	fuelMemo     map[*ssa.Function]int // 2 = no loop (transitively), 3 = contains a loop or calls a target that does
+	legacy       map[string]bool       // targets of the original ssa2lean (namespace Low.Gen.Ssa, loop-free only)
+	gen2         map[string]bool       // targets of ssa2lean2 (namespace Low.Gen.Ssa2)
+	gen3         map[string]bool       // targets of ssa2lean3 (namespace Low.Gen.Ssa3)
+	gen4         map[string]bool       // targets of ssa2lean4 (namespace Low.Gen.Ssa4)
+	initConsts   map[*ssa.Global]string
+	kindsChecked bool
+	cloMemo      map[*ssa.Function]*closureInfo
+	cloDone      map[*ssa.Function]bool
+	freshMemo    map[*ssa.Function]int // returnsFresh: 1 = being computed, 2 = yes, 3 = no
+	globalInts   map[*ssa.Function][]*ssa.Global
+	writtenMemo  map[*ssa.Function]map[int]bool
+	tablesOK     map[*ssa.Global]string
+	globalsOK    map[*ssa.Global]string
+	allFuncs     []*ssa.Function
 }
 
 func newTranslator(prog *ssa.Program, pkgs map[string]*ssa.Package, targets []string, legacy []string, gen2 []string, gen3 []string, gen4 []string) *translator {
@@ -153,7 +154,10 @@ func (tr *translator) translate(target string) (lean string, reason string) {
 		defined: map[ssa.Value]string{}, defType: map[ssa.Value]string{}, used: map[string]bool{},
 		fieldParam: map[int]string{}, cells: map[*ssa.Alloc]ssa.Value{}, silent: map[ssa.Value]bool{},
 		rowIndex: map[ssa.Value]ssa.Value{}, joinType: map[*ssa.BasicBlock]string{},
-		loopPrefix: map[*ssa.BasicBlock]string{}, isLoop: map[*ssa.BasicBlock]bool{}}
+		loopPrefix: map[*ssa.BasicBlock]string{}, isLoop: map[*ssa.BasicBlock]bool{},
+		addr: map[ssa.Value]bool{}, usize: map[ssa.Value]bool{}}
+	reflectTypes = tr.genOf(target) >= 6
+	defer func() { reflectTypes = false }()
 	return c.run(), ""
 }
 
@@ -187,7 +191,11 @@ func (tr *translator) canPanic(f *ssa.Function) bool {
 			case *ssa.Call:
 				if callee := v.Call.StaticCallee(); callee != nil {
 					if callee == f {
-						fail("recursive call of %s", f.Name())
+						if !tr.isGen6(f) {
+							fail("recursive call of %s", f.Name())
+						}
+						res = true // direct recursion (generation 6): the depth budget can run out
+						continue
 					}
 					if _, ok := tr.byFunc[callee]; ok && tr.canPanic(callee) {
 						res = true
@@ -195,6 +203,9 @@ func (tr *translator) canPanic(f *ssa.Function) bool {
 				}
 			}
 		}
+	}
+	if tr.isGen6(f) {
+		res = true // the reflect vocabulary is partial
 	}
 	if res {
 		tr.panicMemo[f] = 3
@@ -225,7 +236,9 @@ func (tr *translator) needsFuel(f *ssa.Function) bool {
 		}
 		for _, in := range b.Instrs {
 			if v, ok := in.(*ssa.Call); ok {
-				if callee := v.Call.StaticCallee(); callee != nil {
+				if callee := v.Call.StaticCallee(); callee == f {
+					res = true // direct recursion (generation 6): the depth budget
+				} else if callee != nil {
 					if _, ok := tr.byFunc[callee]; ok && tr.needsFuel(callee) {
 						res = true
 					}
@@ -489,6 +502,11 @@ func leanType(t types.Type) string {
 	if types.Identical(t, errorType) {
 		return "GoSem.Err"
 	}
+	if reflectTypes {
+		if s := reflectLeanType(t); s != "" {
+			return s
+		}
+	}
 	switch u := t.Underlying().(type) {
 	case *types.Basic:
 		switch {
@@ -598,6 +616,13 @@ type fnCtx struct {
 	selfType  string // closure: Lean type of the parameter `self`
 	cloDefs   []string
 	cloSSA    string
+
+	// generation 6 (reflect.go)
+	gosem6  bool
+	selfRec bool               // the function calls itself: `self` parameter, depth budget
+	iterKey map[ssa.Value]int  // MapRange call -> state key of the iterator
+	addr    map[ssa.Value]bool // values of Lean type GoSem6.Addr (result of Pointer() and its conversions)
+	usize   map[ssa.Value]bool // uintptr results of Type.Size(): Nat
 
 	body *strings.Builder
 }
@@ -731,8 +756,12 @@ func (c *fnCtx) run() string {
 	if !c.legacy {
 		c.used["fuel"], c.used["gas"], c.used["ans"] = true, true, true
 	}
-	if c.clo != nil {
+	c.selfRec = c.gen >= 6 && !c.isClosure && callsItself(f)
+	if c.clo != nil || c.selfRec {
 		c.used["self"], c.used["depth"] = true, true
+	}
+	if c.selfRec && (f.Signature.Recv() != nil || c.clo != nil) {
+		fail("recursive method / recursive function with a closure")
 	}
 	c.scanCells()
 	hasExt := c.scanExt()
@@ -782,6 +811,7 @@ func (c *fnCtx) run() string {
 	} else if c.clo != nil {
 		c.setupCells()
 	}
+	c.setupIters()
 	c.globalName = map[*ssa.Global]string{}
 	if c.gen >= 3 {
 		for k, g := range c.tr.globalIntsOf(f) {
@@ -830,6 +860,32 @@ func (c *fnCtx) run() string {
 	if c.clo != nil && !c.isClosure {
 		c.cloDefs, c.cloSSA = c.translateClosure()
 	}
+	var recNames, recTypes []string
+	if c.selfRec {
+		// DIRECT RECURSION (generation 6): `self` is the function at the remaining recursion depth.  A recursive call
+		// passes values only (integers, bools, strings, reflect Values): the callee cannot reach memory of the caller.
+		if hasExt || len(c.stored) > 0 {
+			fail("recursive function with state")
+		}
+		for _, p := range f.Params {
+			if !(isIntType(p.Type()) || isBool(p.Type()) || isString(p.Type()) || reflectLeanType(p.Type()) != "") {
+				fail("parameter %s of type %s of a recursive function", p.Name(), p.Type())
+			}
+			recTypes = append(recTypes, paren(leanType(p.Type())))
+		}
+		for i := 0; i < res.Len(); i++ {
+			if t := res.At(i).Type(); !(isIntType(t) || isBool(t)) {
+				fail("result of type %s of a recursive function", t)
+			}
+		}
+		if len(recTypes) == 0 || len(c.paramNames) != len(f.Params) {
+			fail("recursive function without parameters / with hidden parameters")
+		}
+		recNames = append(recNames, c.paramNames...)
+		c.selfType = strings.Join(recTypes, " → ") + " → " + c.resType
+		c.paramNames = append([]string{"self"}, c.paramNames...)
+		c.paramDecls = append([]string{"(self : " + c.selfType + ")"}, c.paramDecls...)
+	}
 
 	cur := map[int]string{}
 	for k, n := range c.fieldParam {
@@ -838,6 +894,10 @@ func (c *fnCtx) run() string {
 			// closureOf), which sets it to Go's zero value; that value stands in until then, so that every join can
 			// pass the variable on
 			cur[k] = zeroValueOf(c.cellElem(k))
+			continue
+		}
+		if isIterKey(k) {
+			cur[k] = "GoSem6.MapIter.unset" // no iterator yet; every use is dominated by its MapRange
 			continue
 		}
 		cur[k] = n
@@ -862,6 +922,9 @@ func (c *fnCtx) run() string {
 	}
 	if c.gosem3 {
 		out.WriteString("import LowModel.GoSem3\n")
+	}
+	if c.gosem6 {
+		out.WriteString("import LowModel.GoSem6\n")
 	}
 	var imps []string
 	for i := range c.imports {
@@ -905,6 +968,15 @@ func (c *fnCtx) run() string {
 		}
 		out.WriteString("\n")
 	}
+	if c.gosem6 {
+		out.WriteString("   reflect.Value / reflect.Type are ABSTRACT: a Value is a tree of kinds and lengths (LowModel/GoSem6.lean); a reflect call\n")
+		out.WriteString("   that panics, or whose result the tree does not determine, is `none`.  Package-level size variables are the constants\n")
+		out.WriteString("   the package initialiser stores (read from its SSA; refused if they are written anywhere else).\n")
+	}
+	if c.selfRec {
+		fmt.Fprintf(&out, "   The function calls ITSELF: `%s_body` takes the function as `self`, `%s_rec` closes the recursion with a\n", leanName, leanName)
+		fmt.Fprintf(&out, "   depth counter (`none` when it is used up) and `%s` passes `fuel` for it (loops: `fuel` iterations per instance).\n", leanName)
+	}
 	out.WriteString("\n")
 	out.WriteString(ssaText(f))
 	out.WriteString(c.cloSSA)
@@ -919,8 +991,21 @@ func (c *fnCtx) run() string {
 	if c.fuel {
 		decls = append([]string{"(fuel : Nat)"}, decls...)
 	}
-	fmt.Fprintf(&out, "def %s %s : %s :=\n", leanName, strings.Join(decls, " "), c.resType)
-	out.WriteString(c.body.String())
+	if c.selfRec {
+		fmt.Fprintf(&out, "def %s_body %s : %s :=\n", leanName, strings.Join(decls, " "), c.resType)
+		out.WriteString(c.body.String())
+		wild := make([]string, len(recNames))
+		for i := range wild {
+			wild[i] = "_"
+		}
+		fmt.Fprintf(&out, "\ndef %s_rec (fuel : Nat) : Nat → %s\n", leanName, c.selfType)
+		fmt.Fprintf(&out, "  | 0, %s => none\n", strings.Join(wild, ", "))
+		fmt.Fprintf(&out, "  | depth+1, %s => %s_body fuel (%s_rec fuel depth) %s\n", strings.Join(recNames, ", "), leanName, leanName, strings.Join(recNames, " "))
+		fmt.Fprintf(&out, "\ndef %s (fuel : Nat) %s : %s :=\n  %s_rec fuel fuel %s\n", leanName, strings.Join(c.paramDecls[1:], " "), c.resType, leanName, strings.Join(recNames, " "))
+	} else {
+		fmt.Fprintf(&out, "def %s %s : %s :=\n", leanName, strings.Join(decls, " "), c.resType)
+		out.WriteString(c.body.String())
+	}
 	fmt.Fprintf(&out, "\nend %s\n", ns)
 	return out.String()
 }
@@ -928,6 +1013,9 @@ func (c *fnCtx) run() string {
 func (c *fnCtx) storedType(k int) string {
 	if k == extKey {
 		return "GoSem2.ExtCall"
+	}
+	if isIterKey(k) {
+		return "GoSem6.MapIter"
 	}
 	if isCellKey(k) {
 		return leanType(c.cellElem(k))
@@ -1097,6 +1185,9 @@ func (c *fnCtx) scanExt() bool {
 		n := 0
 		for _, in := range b.Instrs {
 			if call, ok := in.(*ssa.Call); ok && call.Call.IsInvoke() {
+				if c.gen >= 6 && isReflectNamed(call.Call.Value.Type(), "Type") {
+					continue // reflect vocabulary (reflect.go), not an external call
+				}
 				n++
 			}
 		}
@@ -1435,7 +1526,7 @@ func (c *fnCtx) emitBlock(b *ssa.BasicBlock, ind int, curIn map[int]string) {
 			binders = append(binders, fmt.Sprintf("(%s : %s)", name, t))
 			pats = append(pats, name)
 		}
-		for _, k := range c.threaded() {
+		for _, k := range c.threadedAt(j) {
 			t := c.storedType(k)
 			name := fmt.Sprintf("%s_b%d", c.storedBase(k), j.Index)
 			jcur[k] = name
@@ -1581,6 +1672,9 @@ func (c *fnCtx) checkPanicBlock(b *ssa.BasicBlock) {
 				fail("panic block %d: store %s", b.Index, in)
 			}
 		case *ssa.Call:
+			if c.gen >= 6 && reflectCallOK(v) {
+				continue // a method of reflect.Value of the vocabulary: returns or panics
+			}
 			callee := v.Call.StaticCallee()
 			if callee == nil || callee.Pkg == nil || callee.Pkg.Pkg.Path() != "fmt" ||
 				!(callee.Name() == "Sprintf" || callee.Name() == "Sprint" || callee.Name() == "Sprintln") {
@@ -1634,7 +1728,7 @@ func (c *fnCtx) emitGoto(from *ssa.BasicBlock, succ int, ind int, cur map[int]st
 		}
 		args = append(args, cur[memKey(cls)])
 	}
-	for _, k := range c.threaded() {
+	for _, k := range c.threadedAt(to) {
 		args = append(args, paren(cur[k]))
 	}
 	if len(args) == 0 {
@@ -1850,6 +1944,9 @@ func onlyFeedsNoop(v ssa.Value) bool {
 
 func (c *fnCtx) emitInstr(in ssa.Instruction, ind int, cur map[int]string) {
 	if c.gen >= 3 && c.emitMem(in, ind, cur) {
+		return
+	}
+	if c.gen >= 6 && c.emitReflect(in, ind, cur) {
 		return
 	}
 	switch v := in.(type) {
@@ -2216,6 +2313,16 @@ func (c *fnCtx) emitCall(v *ssa.Call, ind int, cur map[int]string) {
 	callee := v.Call.StaticCallee()
 	if callee == nil {
 		fail("dynamic call %s", v)
+	}
+	if callee == c.f && c.selfRec {
+		// direct recursion: the function at the remaining depth
+		var args []string
+		for _, a := range v.Call.Args {
+			leanType(a.Type())
+			args = append(args, paren(c.operand(a)))
+		}
+		c.bind(ind, v, leanType(v.Type()), "self "+strings.Join(args, " "))
+		return
 	}
 	if callee.Pkg != nil && callee.Pkg.Pkg.Path() == "math/bits" && callee.Signature.Recv() == nil {
 		if fn, ok := mathBits[callee.Name()]; ok && len(v.Call.Args) == 1 && isUnsigned(v.Call.Args[0].Type()) {
